@@ -16,6 +16,10 @@ Next ==
                   P |-> [k \in 1..(2 ^ Len(s.lb)) |-> RelCapture(s, Corners(s.lb, TruncUb(s, 4))[k])],
                   ratio |-> IF Len(s.lb) = 2 /\ Bounded(s) THEN RatioPoints(s.lb, s.ub) ELSE {},
                   insys |-> {[x |-> x, ans |-> InSystem(x, s.lb, s.ub)] : x \in [1..Len(s.lb) -> {0, 2, 5, 9}]}]
+     \/ \E x \in {-98765, -1250, -349, -15, -7, 0, 3, 14, 15, 25, 149, 150, 151, 2500, 3499, 99949, 99951, 123456}, p \in 1..3 :
+          out' = [kind |-> "signif", x |-> x, p |-> p, r |-> RoundSig(x, p), tie |-> RoundSigIsTie(x, p)]
+     \/ \E v \in [1..3 -> {-3, 0, 2, 7}] :
+          out' = [kind |-> "norms", v |-> v, l1 |-> L1Norm(v), l2sq |-> L2NormSq(v)]
      \/ \E n \in 2..4, d \in 1..3, incl \in BOOLEAN : out' = [kind |-> "grid", n |-> n, d |-> d, incl |-> incl, pts |-> EquallySpaced(n, d, incl)]
   /\ pc' = "done"
 Spec == Init /\ [][Next]_vars
